@@ -45,7 +45,7 @@ func init() {
 			}
 			return []runner.Phase{
 				{Name: "scenarios", Variant: "race", Cases: n, Run: c13case, CaseTimeout: 120 * time.Second,
-					Required: []string{"retry_same_host", "retry_next_host", "rethrow_or_ignore", "non_idempotent", "speculative", "ctx_cancelled", "budget_exhausted", "batches"}},
+					Required: []string{"retry_same_host", "retry_next_host", "rethrow_or_ignore", "non_idempotent", "speculative", "ctx_cancelled", "budget_exhausted", "batches", "host_down_while_in_flight", "batch_reused_after_entries_changed", "speculative_batch_executions_seen"}},
 			}
 		},
 	})
@@ -194,6 +194,8 @@ type c13nodeState struct {
 	cancelAt  map[string]int // token -> cancel the context at this arrival index (0-based), -1 none
 	cancels   map[string]context.CancelFunc
 	cancelSeq map[string]int64
+	sess      *gocql.Session
+	hostDowns int64
 }
 
 func c13outcome(sc *fakenode.ServerConn, req *fakenode.Req, kind string) {
@@ -226,6 +228,8 @@ func c13outcome(sc *fakenode.ServerConn, req *fakenode.Req, kind string) {
 		// the driver's timeout ends it
 	case kind == "drop":
 		sc.Close()
+	case kind == "host-down":
+		// never answered by the node; the driver itself closes this host's connections (see the handler)
 	}
 }
 
@@ -285,7 +289,17 @@ func (ns *c13nodeState) handler(idx int) fakenode.Handler {
 		// stamped before the answer leaves: whatever the driver does in reaction to it comes later
 		ns.mu.Lock()
 		a.doneT = time.Now()
+		sess := ns.sess
 		ns.mu.Unlock()
+		if kind == "host-down" && sess != nil {
+			// the cluster reports this node DOWN while the request is in flight on it: the driver closes the
+			// host's pool itself, the waiting request ends with "connection closed" (delivered the way the
+			// event debouncer would, without its one-second delay)
+			atomic.AddInt64(&ns.hostDowns, 1)
+			ip := sc.Node.IP
+			go gocql.VerifHandleNodeEvents(sess, []gocql.VerifNodeEvent{{Change: "DOWN", Host: ip, Port: 9042}})
+			return
+		}
 		c13outcome(sc, req, kind)
 	}
 }
@@ -313,6 +327,10 @@ func c13case(c *runner.Ctx, i int) {
 		return
 	}
 	defer sess.Close()
+	ns.mu.Lock()
+	ns.sess = sess
+	ns.mu.Unlock()
+	defer func() { c.Add("host_down_while_in_flight", atomic.LoadInt64(&ns.hostDowns)) }()
 	// node order as the policy offers it (by address) == cluster order
 	nq := 6 + r.Intn(6)
 	drops := false // sticky: once a connection was dropped, later queries may meet closed connections
@@ -328,6 +346,10 @@ func c13case(c *runner.Ctx, i int) {
 			kd := c13failKinds[r.Intn(len(c13failKinds))]
 			if r.Intn(25) == 0 && nn > 1 {
 				kd = "drop"
+				drops = true
+			}
+			if r.Intn(20) == 0 && nn > 1 {
+				kd = "host-down"
 				drops = true
 			}
 			script = append(script, kd)
@@ -643,6 +665,57 @@ func c13case(c *runner.Ctx, i int) {
 		}
 		if c.WantSample() {
 			c.Sample(wit)
+		}
+	}
+	// a Batch object that is executed, changed through its exported Entries field, and executed again: whether
+	// it may be executed speculatively is a property of the entries it holds at that time
+	if nn >= 2 && !drops {
+		ta, tb := fmt.Sprintf("rb%d_a", i), fmt.Sprintf("rb%d_b", i)
+		ns.mu.Lock()
+		ns.script[ta] = []string{"slow-ok", "slow-ok", "slow-ok", "slow-ok"}
+		ns.script[tb] = []string{"slow-ok", "slow-ok", "slow-ok", "slow-ok"}
+		ns.mu.Unlock()
+		b := sess.NewBatch(gocql.UnloggedBatch)
+		b.SpeculativeExecutionPolicy(&gocql.SimpleSpeculativeExecution{NumAttempts: 2, TimeoutDelay: time.Millisecond})
+		b.Entries = append(b.Entries, gocql.BatchEntry{Stmt: "RETRY " + ta, Idempotent: true})
+		var e1, e2 error
+		c.Guard("ExecuteBatch", func() { e1 = sess.ExecuteBatch(b) })
+		switch r.Intn(3) {
+		case 0:
+			b.Entries = append(b.Entries[:0], gocql.BatchEntry{Stmt: "RETRY " + tb, Idempotent: false})
+		case 1:
+			b.Entries = []gocql.BatchEntry{{Stmt: "RETRY " + tb, Idempotent: true}, {Stmt: "RETRY other", Idempotent: false}}
+		default:
+			b.Entries[0] = gocql.BatchEntry{Stmt: "RETRY " + tb, Idempotent: false}
+		}
+		c.Guard("ExecuteBatch", func() { e2 = sess.ExecuteBatch(b) })
+		time.Sleep(30 * time.Millisecond)
+		for settle, quiet, last := 0, 0, -1; settle < 1000 && quiet < 3; settle++ {
+			pending := 0
+			for _, sc := range cl.AllConns() {
+				pending += sc.C.Pending()
+			}
+			ns.mu.Lock()
+			cur := len(ns.arrivals[tb])
+			ns.mu.Unlock()
+			if pending == 0 && cur == last {
+				quiet++
+			} else {
+				quiet = 0
+			}
+			last = cur
+			time.Sleep(2 * time.Millisecond)
+		}
+		ns.mu.Lock()
+		na, nb := len(ns.arrivals[ta]), len(ns.arrivals[tb])
+		ns.mu.Unlock()
+		c.Add("batch_reused_after_entries_changed", 1)
+		if na > 1 {
+			c.Add("speculative_batch_executions_seen", 1)
+		}
+		if nb > 1 {
+			c.Violation("C13:non-idempotent-executed-concurrently:reused-batch", fmt.Sprintf("a batch holding an entry not marked idempotent reached servers %d times: it was executed speculatively because the same Batch object was all-idempotent when it was executed before", nb),
+				map[string]interface{}{"first_execution_arrivals": na, "second_execution_arrivals": nb, "results": fmt.Sprint(e1, e2)})
 		}
 	}
 	for _, b := range cl.BadFrames {
